@@ -97,9 +97,10 @@ SumW(ic, i) == IF i > Len(ic) THEN 0 ELSE ic[i][1] + SumW(ic, i + 1)
 SumWC(ic, i) == IF i > Len(ic) THEN 0 ELSE ic[i][1] * ic[i][2] + SumWC(ic, i + 1)
 GroupCov(sh, d) == LET ic == ItemCovs(sh, d) IN
                    IF Len(ic) = 0 \/ SumW(ic, 1) = 0 THEN Full ELSE SumWC(ic, 1) \div SumW(ic, 1)
+\* every bin of every item that carries weight is covered (an item of weight 0 does not take part in the average)
 AllCovered(sh, d) ==
-  /\ \A i \in 1..Len(sh.cps) : NCovered(d.h[sh.cps[i].name], sh.cps[i].atl) = Len(d.h[sh.cps[i].name])
-  /\ \A i \in 1..Len(sh.xs) : NCovered(d.x[sh.xs[i].name], sh.xs[i].atl) = Len(d.x[sh.xs[i].name])
+  /\ \A i \in 1..Len(sh.cps) : sh.cps[i].wt > 0 => NCovered(d.h[sh.cps[i].name], sh.cps[i].atl) = Len(d.h[sh.cps[i].name])
+  /\ \A i \in 1..Len(sh.xs) : sh.xs[i].wt > 0 => NCovered(d.x[sh.xs[i].name], sh.xs[i].atl) = Len(d.x[sh.xs[i].name])
 Close(a, b) == a - b <= 2 /\ b - a <= 2
 
 (* ------------------------ observation = projection ---------------------- *)
